@@ -175,8 +175,8 @@ LEVELS = {
     "C05": ("Proved: in every state (store failures included) each failure of Stat, Mkdir, Remove, Chmod, Chtimes and OpenFile of the key-value model is a PathError naming exactly the caller's path, also through a generic Sub view and a mount FS (the added prefix is exactly the stripped one); on well-formed fault-free states the sentinel for each situation (invalid, exists, missing, below a file, not empty, root); Rename with an invalid name gives a LinkError with both names; in every state every failure of Rename is a LinkError (exactly the caller's names for a non-directory source, the caller's names or both extended by one relative path for a directory) and every error of a handle operation is io.EOF or a PathError. "
             "Checked every run: full error values model = implementation (mem); type, path and sentinel implementation = os on mem, Sub(mem, a/ab), a mount FS and os.FS under two Sub roots; under a store that fails one call (every index in turn, both transaction paths) every reported error is still typed and names the caller's path.",
             "Not proved: MkdirAll/RemoveAll; Rename's out-of-fuel marker of the model is excluded by the statement; cache and tar layers are exercised by C04/C10/C12 only. Two known findings (precedence; ancestor named by RemoveAll)."),
-    "C06": ("Proved over the mount model: routing is independent of the table's iteration order, selects the longest whole-element prefix, never confuses look-alike prefixes; only the routed constituent changes and the result is the direct one; AddMount succeeds at most/exactly once per point; a Rename across two mounts is REFUTED as an all-or-nothing operation (two witnesses = the two known findings). "
-            "Checked every run: routes of all candidate paths and operation histories model = implementation; per-constituent snapshots (incl. setuid/setgid/sticky) against a flat reference; the refutation scenario itself (one failing store call of one constituent, 48 cases) model = implementation.",
+    "C06": ("Proved over the mount model: routing is independent of the table's iteration order, selects the longest whole-element prefix, never confuses look-alike prefixes; only the routed constituent changes and the result is the direct one; AddMount succeeds at most/exactly once per point under concurrency, is accepted only at a valid unmounted name that is a directory of the file system its parent routes to, changes nothing when refused, and afterwards routes the point and what lies below it to the new constituent and everything else as before; a Rename across two mounts is REFUTED as an all-or-nothing operation (two witnesses = the two known findings). "
+            "Checked every run: routes of all candidate paths and operation histories model = implementation; AddMount of candidate points (directories, files, missing paths, existing points, nested points, directories that exist in the root only, invalid names) on prepared compositions: answer and all routes afterwards model = implementation; per-constituent snapshots (incl. setuid/setgid/sticky) against a flat reference; the refutation scenario itself (one failing store call of one constituent, 48 cases) model = implementation.",
             "Cross-mount Rename's error class and the covered directory's mode in listings are not constrained (see DESIGN.md 0.6). Concurrency of AddMount is exercised, not proved. Every primitive call of a cross-mount Rename is made to fail in turn: two known findings (it is not all-or-nothing)."),
     "C07": ("Proved over the Sub model: a view addresses base joined with the name, which is the base or below it and valid; invalid names change nothing; each operation is the parent's operation at the joined name with error paths translated back. "
             "Checked every run: view vs parent on identical copies for mem, mount (inside and above a mount point), os and an Open-only FS; model = implementation.",
